@@ -30,6 +30,8 @@ def terminal : SPC → Bool
 def pick (d : DS) (s : St) : Option St :=
   let P := params
   let subStep : Option St := d.active.findSome? (fun i =>
+    -- Go's RWMutex prefers a waiting writer: no new reader while the Shutdown call waits in guard.Lock()
+    if s.subs[i]? = some .rlock && d.shut && s.closer == .idle then none else
     match step P s (.sub i) with
     | some s' => some s'
     | none =>
@@ -56,6 +58,41 @@ def settle (d : DS) : Nat → St → St
   | fuel + 1, s => match pick d s with
     | some s' => settle d fuel s'
     | none => s
+
+/-- every internal action (`Act.internal`, the notion of `C18_no_stuck`) that is enabled, by full enumeration —
+independent of `pick` -/
+def enabledInternal (called : Bool) (s : St) : List String :=
+  let P := params
+  let en (a : Act) : Bool := Act.internal called s a && (step P s a).isSome
+  let is := List.range s.subs.length
+  let wsx := List.range s.workers.length
+  (is.filter (fun i => en (.sub i))).map (fun i => s!"sub({i})") ++
+  (is.flatMap (fun i => (wsx.filter (fun w => en (.handoff i w))).map (fun w => s!"handoff({i},{w})"))) ++
+  (wsx.filter (fun w => en (.wready w))).map (fun w => s!"wready({w})") ++
+  (wsx.filter (fun w => en (.take w))).map (fun w => s!"take({w})") ++
+  (wsx.filter (fun w => en (.seeDone w))).map (fun w => s!"seeDone({w})") ++
+  (wsx.filter (fun w => en (.exit w))).map (fun w => s!"exit({w})") ++
+  (if en .closer then ["closer"] else [])
+
+/-- where every goroutine of the settled LTS state is parked, in the vocabulary of a goroutine dump -/
+def quietAnswer (d : DS) (s : St) : String :=
+  let act := d.active.filterMap (fun i => s.subs[i]?)
+  let cnt (p : SPC → Bool) : Nat := act.countP p
+  let send := cnt (fun pc => pc == .send)
+  let rlock := cnt (fun pc => pc == .rlock)
+  let other := cnt (fun pc => !(terminal pc) && pc != .send && pc != .rlock && pc != .idle)
+  let wsel := s.workers.countP (fun w => w == .idle)
+  let wtask := s.workers.countP (fun w => w.task?.isSome)
+  let wother := s.workers.countP (fun w => w != .idle && w.task?.isNone && w != .exited)
+  let sh : String := if !d.shut then "none" else
+    match s.closer with
+    | .idle => "lock"
+    | .wait => "wait"
+    | .ret _ => "ret"
+    | _ => "other"
+  let en := enabledInternal d.shut s
+  let ens := if en.isEmpty then "-" else ",".intercalate en
+  s!"exec-send={send} exec-rlock={rlock} exec-other={other} workers-select={wsel} workers-task={wtask} workers-other={wother} shutdown={sh} enabled={ens}"
 
 def insertSorted (x : Nat) : List Nat → List Nat
   | [] => [x]
@@ -128,6 +165,9 @@ def drvStep (d : DS) (line : String) : DS × String :=
     let st := if s.n = 1 then s.started else sortNat s.started
     ({ d with s := some s },
       s!"started={showNatList st} running={showNatList (sortNat (s.workers.filterMap WPC.task?))} finished={showNatList (sortNat s.finished)}")
+  | some "quiet", some s =>
+    let s := settle d fuel s
+    ({ d with s := some s }, quietAnswer d s)
   | some "shutdown", some s | some "shutdown-async", some s =>
     -- one Shutdown call at a time; a later call starts over (the LTS proper has a single call)
     let fresh : Option St :=
